@@ -7,7 +7,7 @@ import idx_common as I
 
 ID = "C15"
 LEAN_MODULES = ["CatiiProps.C15"]
-USES_TRANSLATOR = ['eq', 'choose_common']   # Gen/EqGen.lean is rewritten from the current iindex.__eq__ / __ne__ (tools/translate_eq.py)
+USES_TRANSLATOR = ['eq', 'choose_common', 'shift_to']   # Gen/EqGen.lean is rewritten from the current iindex.__eq__ / __ne__ (tools/translate_eq.py)
 TRUSTED = ["tools/translate_eq.py (the boolean expression of __eq__, __ne__ = not __eq__; numpy.setxor1d modelled up to order)"]
 RULE = ("(a) the histories of C06: after every library-chosen normalisation (shift_common(), append, filtered, collapsed, "
         "from_array without a common - with and without a value mapping (injective / many-to-one) and supplied counts) count(common) == max count, ties either way; (b) pairs of indexes reached by "
